@@ -23,6 +23,8 @@ type Ctx struct {
 	Arch    string // "" amd64
 	Tests   bool
 	instIdx map[string][]*ssa.Function
+	// lastCarrier: set by decodedOrigin — the struct field nearest to the sink through which the decoded value flowed
+	lastCarrier string
 }
 
 // RuleSet decides one property.
